@@ -296,8 +296,16 @@ func c18Case(c *Ctx, i int64) {
 	// reuse: after Reset onto a new source the reader must again yield one conforming frame
 	// (whatever state the previous stream was left in)
 	if chunk == 1 {
-		data2 := mixData(gi, 1000+gi.N(70000))
+		data2full := mixData(gi, 1000+gi.N(70000))
 		for scen := 0; scen < 6; scen++ {
+			// the second stream is sometimes empty or a few bytes: nothing of the first may show in it
+			data2 := data2full
+			switch (scen + int(base)) % 3 {
+			case 1:
+				data2 = nil
+			case 2:
+				data2 = data2full[:1+scen]
+			}
 			var frame2 []byte
 			var err2 error
 			bad := ""
